@@ -401,7 +401,7 @@ def _write_path(case, ctx):
                       'target=' + target])
         total_points += len(points)
     ctx.extra['crash_points_enumerated'] = ctx.extra.get('crash_points_enumerated', 0) + total_points
-    ctx.extra['exhaustive'] = 'per case: all I/O steps of the write path x 6 previous states'
+    ctx.extra['exhaustively_enumerated_part'] = 'per case: all I/O steps of the write path x 6 previous states'
     _put(path, None)
 
 
